@@ -1,7 +1,8 @@
 SPECIFICATION Spec
-CONSTANTS Prog <- ProgLoopSub  BpSets <- Bps3  MaxReq = 4  Deviations <- NoDev  Fuel = 40
+CONSTANTS Lines <- Id7  Prog <- ProgLoopSub  BpSets <- Bps3  MaxReq = 4  Deviations <- NoDev  Fuel = 40
 INVARIANT TypeOK
 INVARIANT StoppedIsHalted
 INVARIANT InspectConsistent
 INVARIANT NoSkippedBreakpoint
+INVARIANT NoSkipAfterProbe
 INVARIANT StepExact
